@@ -99,6 +99,8 @@ func init() {
 			return []Term{Ite(sx("<=", d, "0"), t, r)}, true
 		},
 		"time.Duration.Seconds": func(fr *Frame, st *State, call ssa.CallInstruction, fn *ssa.Function, a []Term) ([]Term, bool) {
+			// a Duration is an int64 at run time
+			fr.vc.sc.Assume(st.reach, And(sx("<=", "(- 9223372036854775808)", a[0]), sx("<=", a[0], "9223372036854775807")))
 			return []Term{sx("/", sx("to_real", a[0]), "1000000000.0")}, true
 		},
 		"errors.New": func(fr *Frame, st *State, call ssa.CallInstruction, fn *ssa.Function, a []Term) ([]Term, bool) {
@@ -181,7 +183,7 @@ func init() {
 			old := vc.getMem(st, key, "(Array Ref String)")
 			nm := vc.newMemVersion(key)
 			st.mem[key] = nm
-			vc.havocs = append(vc.havocs, havocEvent{key: key, old: old, new: nm, pred: func(x Term) Term { return Eq(sx("root", x), base) }})
+			vc.havocs = append(vc.havocs, havocEvent{key: key, old: old, new: nm, pos: len(vc.sc.items), pred: func(x Term) Term { return Eq(sx("root", x), base) }})
 			vc.sc.Def(fmt.Sprintf("(forall ((?i Int)) (! (= (select %s (elem %s ?i)) (splitPart %s %s ?i)) :pattern ((elem %s ?i))))", nm, base, a[0], a[1], base))
 			return []Term{r}, true
 		},
